@@ -136,7 +136,8 @@ CHECKS = {
        'LSUB/STATUS/SELECT through the real do_command on the dict backend over a vocabulary of awkward names (hierarchy, case variants '
        'of INBOX, newline, wildcard characters) with a symbolic LIST pattern against a set-of-names model incl. RENAME of inferiors and '
        'INBOX, NO => unchanged; (c) the maildir MailboxSet with a stub layout raising each documented exception: the session layer '
-       'answers NO.',
+       'answers NO; (d) RENAME of a hierarchy keeps every inferior\'s suffix (symbolic names); (e) both maildir layouts: two different '
+       'ASCII names (<= 3+3 quick / 5+5 thorough symbolic characters) that the layout accepts never resolve to the same folder.',
   note=TRUST + 'Names without empty components; ASCII case folding for INBOX. Outside: maildir directories, modified UTF-7 spelling (C18).',
   technique='symbolic execution of the real code with z3; symbolic regex matching vs. a z3 DP specification of the wildcards'),
  'C12': dict(
